@@ -16,27 +16,29 @@ from vt import core
 from vt.main import decide
 from translate import history_tr
 
-GRAMS = ["GA", "GB", "GC", "GD", "GE", "BAD1", "BAD2", "BAD3", "BAD4", "GF"]
+GRAMS = ["GA", "GB", "GC", "GD", "GE", "BAD1", "BAD2", "BAD3", "BAD4", "GF", "GH", "BAD5", "BAD6", "BAD7"]
 USES_BASE = {"GB", "GC", "GE"}
 CLS_KEYS = ["Item:plain", "Item:set", "Item:boom", "Model:plain", "Ref:plain", "Item:get"]
 CLS_FOR = {"GA": ["Item:plain", "Item:set", "Item:boom", "Item:get", "Model:plain", "Ref:plain"], "GB": ["Item:plain", "Item:set", "Item:boom", "Item:get"],
            "GC": [], "GD": ["Item:plain", "Item:set", "Ref:plain", "Model:plain"], "GE": ["Item:plain", "Item:set", "Item:get"],
-           "GF": ["Item:set", "Item:get", "Item:plain"]}
+           "GF": ["Item:set", "Item:get", "Item:plain"], "GH": ["Item:plain", "Item:set"]}
 
 INPUTS = {
     "GA": ["A item x = 1; ref x;", "A item x = 1; item y = 22; ref y; ref x;", "A item x = 1; ref zz;", "A item x = 1 ref x;",
            "A item bad = 3;", "A item boom = 3; item k = 1;", "A item mperr = 1;", "A item perr = 2; ref perr;", "",
-           "A item x = 1; item x = 2; ref x;", "A item y = 5; ref x;"],
-    "GB": ["item a 5", "item a 3.5 !", "5", "'str'", "item", "item a b", "item boom 1", "item bad 2.0"],
+           "A item x = 1; item x = 2; ref x;", "A item y = 5; ref x;",
+           "A item x = 1; item y = 13; ref x;", "A item x = 1; item nope = 2; ref x;"],
+    "GB": ["item a 5", "item a 3.5 !", "5", "'str'", "item", "item a b", "item boom 1", "item bad 2.0", "item a 13", "item nope 4 !"],
     "GC": ["C 1, 2.5, 'x', abc opt 12", "C 1 # comment\n, two", "C 1,, 2", "C 'a' opt true", "C x opt 3.0e1", "C 1 opt"],
     "GD": ['import "lib.gd"; item m; ref a; ref m;', 'import "lib2.gd"; ref c; ref c;', 'import "lib.gd"; ref zz;',
            'import "broken.gd"; item q;', 'import "missing.gd"; item q;', "item p = 2.0; ref p;",
            'import "cyc.gd"; item r; ref s;', "item ; ", 'import "lib.gd"; item mperr; ref b;', 'import "lib.gd"; item bad; ref a;',
            "item y; ref p;"],
-    "GE": ["12", "true", "item a 3", "3.5", "item a x", "item boom 4"],
+    "GE": ["12", "true", "item a 3", "3.5", "item a x", "item boom 4", "item c 13", "item nope 1"],
+    "GH": ["H item a = 1; item b;", "H item ;", "H item a = 13;", "H"],
     # GF: the root value is whatever the object processors of the match rules return (Decimal, Fraction, tuple, frozenset,
     # list, a plain Python object) or an Item
-    "GF": ["item a 3", "12.5mm", "3:4", "item b 7", "item", "7mm", "12.5 mm", "10:2"],
+    "GF": ["item a 3", "12.5mm", "3:4", "item b 7", "item", "7mm", "12.5 mm", "10:2", "item c 13", "item nope 2"],
 }
 EXTRA_FILES = {"lib.gd": "item a = 1.5; item b;", "lib2.gd": 'import "lib.gd"; item c;', "broken.gd": "item ;",
                "cyc.gd": 'import "GD_6.gd"; item s; ref r;'}
@@ -60,7 +62,7 @@ def cls_id(g, key):
 
 # ------------------------------------------------------------------ generators
 def rand_cfg(r, g=None):
-    g = g or r.weighted([("GA", 5), ("GB", 5), ("GC", 3), ("GD", 4), ("GE", 3), ("GF", 5)])
+    g = g or r.weighted([("GA", 5), ("GB", 5), ("GC", 3), ("GD", 4), ("GE", 3), ("GF", 5), ("GH", 3)])
     cfg = {"g": g}
     if r.chance(0.45):
         cfg["memo"] = True
@@ -80,8 +82,9 @@ def rand_cfg(r, g=None):
         m = r.weighted([("Measure:decimal", 4), ("Measure:fraction", 2), ("Measure:obj", 2), (None, 1)])
         q = r.weighted([("Pair:tuple", 4), ("Pair:frozenset", 2), ("Pair:list", 2), (None, 1)])
         objp += [x for x in (m, q) if x]
-    if g in ("GA", "GB", "GE", "GF") and r.chance(0.3):
-        objp.append("INT:inc")
+    if g in ("GA", "GB", "GE", "GF", "GH") and r.chance(0.5):
+        # base-type processors: a conversion, or a rejection that raises in the middle of the object-graph construction
+        objp.append(r.weighted([("INT:inc", 2), ("INT:no13", 3), ("ID:nope", 2)]))
     if g in ("GB", "GC") and r.chance(0.3):
         objp.append("STRING:up")
     if g != "GC" and r.chance(0.45):
@@ -91,6 +94,8 @@ def rand_cfg(r, g=None):
     mp = [p for p in ("count", "bump", "raise") if r.chance(0.3)]
     if mp:
         cfg["modelp"] = mp
+    if g == "GA" and r.chance(0.5):
+        cfg["nest"] = True      # hooks (scope provider, object processor, model processor) that can start a load
     if g == "GD":
         cfg["provider"] = r.choice(["plain", "fqn"])
     if r.chance(0.5 if g == "GD" else 0.15):
@@ -107,7 +112,7 @@ def rand_cfg(r, g=None):
 
 
 def bad_cfg(r):
-    cfg = {"g": r.choice(["BAD1", "BAD2", "BAD3", "BAD4"])}
+    cfg = {"g": r.choice(["BAD1", "BAD2", "BAD3", "BAD4", "BAD5", "BAD6", "BAD7"])}
     if r.chance(0.5):
         cfg["memo"] = True
     if r.chance(0.1):
@@ -138,13 +143,14 @@ def rand_load(r, cfg, slot, last):
 def make_pool(r, n):
     """the run's pool of metamodel configurations (histories draw from it, so fresh evaluations are shared)"""
     pool = []
-    for i, g in enumerate(["GA", "GB", "GD", "GF", "GC", "GE"][:n]):
+    for i, g in enumerate(["GA", "GB", "GD", "GF", "GC", "GE", "GH"][:n]):
         pool.append(rand_cfg(r, g))
     gf = next(c for c in pool if c["g"] == "GF")      # always a user class with its own attribute methods where the root
     if not any(k in gf.get("classes", []) for k in ("Item:set", "Item:get")):   # rule can yield non-textX values
         gf["classes"] = [r.choice(["Item:set", "Item:get"])]
     while len(pool) < n:
         pool.append(rand_cfg(r))
+    next(c for c in pool if c["g"] == "GA")["nest"] = True
     gd = next(c for c in pool if c["g"] == "GD")      # always one multi-file configuration with a global repository
     gd["repo"] = True
     if r.chance(0.5):
@@ -189,6 +195,12 @@ def gen_history(r, maxops, pool):
             if s in slot_cfg:
                 op = rand_load(r, cfgs[slot_cfg[s]], s, last)
                 last = (op["g"], op["k"])
+                if cfgs[slot_cfg[s]].get("nest") and r.chance(0.4):
+                    # this load starts another one from a scope provider / object processor / model processor
+                    op["k"] = r.choice([0, 1, 9, 10, 2])
+                    s2 = r.choice(sorted(slot_cfg))
+                    inner = rand_load(r, cfgs[slot_cfg[s2]], s2, None)
+                    op["nest"] = {"phase": r.choice(["provider", "objproc", "modelproc"]), "slot": s2, "g": inner["g"], "k": inner["k"], "via": inner["via"]}
                 ops.append(op)
             else:
                 ops.append({"op": "load", "slot": s, "g": "GA", "k": 0, "via": "str"})
@@ -229,12 +241,18 @@ def impl_op(op):
     if op["op"] == "new":
         return {"op": "new", "slot": op["slot"], "cfg": op["cfg"]}
     name = "%s_%d.%s" % (op["g"], op["k"], op["g"].lower())
-    return {"op": "load", "slot": op["slot"], "input": INPUTS[op["g"]][op["k"]], "via": op["via"], "file": name}
+    o = {"op": "load", "slot": op["slot"], "input": INPUTS[op["g"]][op["k"]], "via": op["via"], "file": name}
+    if op.get("nest"):
+        n = op["nest"]
+        o["nest"] = {"phase": n["phase"], "slot": n["slot"], "input": INPUTS[n["g"]][n["k"]], "via": n["via"],
+                     "file": "%s_%d.%s" % (n["g"], n["k"], n["g"].lower())}
+    return o
 
 
 def files_for(ops):
     """only the files the operations can touch (process creation and file I/O dominate the run time)"""
     files = {}
+    ops = list(ops) + [dict(o["nest"], op="load") for o in ops if o.get("nest")]
     for o in ops:
         if o["op"] == "load":
             name = "%s_%d.%s" % (o["g"], o["k"], o["g"].lower())
@@ -258,15 +276,36 @@ def fresh_key(case, slot_cfg, op):
         return ("new", ckey(case["cfgs"][op["cfg"]]))
     if op["slot"] not in slot_cfg:
         return None
-    return ("load", ckey(case["cfgs"][slot_cfg[op["slot"]]]), op["g"], op["k"], op["via"])
+    base = ("load", ckey(case["cfgs"][slot_cfg[op["slot"]]]), op["g"], op["k"], op["via"])
+    if op.get("nest"):
+        n = op["nest"]
+        inner = ckey(case["cfgs"][slot_cfg[n["slot"]]]) if n["slot"] in slot_cfg else None
+        return ("nest",) + base[1:] + (n["phase"], n["slot"] == op["slot"], inner, n["g"], n["k"], n["via"])
+    return base
+
+
+def inner_key(case, slot_cfg, op):
+    """the load a nested operation starts, as a top-level load of its own (what it has to be equal to)"""
+    n = op.get("nest")
+    if not n or op["slot"] not in slot_cfg or n["slot"] not in slot_cfg:
+        return None
+    return ("load", ckey(case["cfgs"][slot_cfg[n["slot"]]]), n["g"], n["k"], n["via"])
 
 
 def fresh_job(key):
     cfg = json.loads(key[1])
+    cfgs = [cfg]
     ops = [{"op": "new", "slot": 0, "cfg": 0}]
     if key[0] == "load":
         ops.append({"op": "load", "slot": 0, "g": key[2], "k": key[3], "via": key[4]})
-    return {"files": files_for(ops), "cfgs": [cfg], "ops": [impl_op(o) for o in ops]}
+    elif key[0] == "nest":
+        phase, same, inner, g2, k2, via2 = key[5:]
+        if not same and inner is not None:
+            cfgs.append(json.loads(inner))
+            ops.append({"op": "new", "slot": 1, "cfg": 1})
+        ops.append({"op": "load", "slot": 0, "g": key[2], "k": key[3], "via": key[4],
+                    "nest": {"phase": phase, "slot": 0 if same else 1, "g": g2, "k": k2, "via": via2}})
+    return {"files": files_for(ops), "cfgs": cfgs, "ops": [impl_op(o) for o in ops]}
 
 
 def run_jobs(jobs):
@@ -302,12 +341,13 @@ Fixpoint alookup {A} (k : nat) (l : list (nat * A)) : option A :=
 Definition mk_create (tab : list (nat * cres)) (c : cfg) (g : gview) : cres :=
   match gv_cache g with [] => match alookup (c_opts c) tab with Some r => r | None => poisonC end | _ => poisonC end.
 Definition fresh_like (c : cfg) (v : view) : bool :=
-  (negb (v_bp_dirty v) && (match v_caches v with [] => true | _ => false end) && forallb (Nat.eqb 0) (v_instr v)
+  (negb (v_bp_dirty v) && (match v_caches v with [] => true | _ => false end) && negb (v_stale v)
   && forallb (fun g => match g with Some g => Nat.eqb g (c_gram c) | None => false end) (v_cgram v) && Bool.eqb (v_memo v) (c_memo c))%bool.
 Definition mk_load (tab : list (nat * list (nat * lres))) (c : cfg) (i : nat) (v : view) : lres :=
   if fresh_like c v then match alookup (c_opts c) tab with Some t => match alookup i t with Some r => r | None => poisonL end | None => poisonL end else poisonL.
 Definition show_out (o : out) : string :=
-  match o with OCreate r => "C" ++ show_nat (k_dump r) | OLoad r => "L" ++ show_nat (l_dump r) | ONoSlot => "N" end.
+  match o with OCreate r => "C" ++ show_nat (k_dump r) | OLoad r => "L" ++ show_nat (l_dump r) | ONoSlot => "N"
+  | ONest r (OLoad r2) => "L" ++ show_nat (l_dump r) ++ "/L" ++ show_nat (l_dump r2) | ONest r _ => "L" ++ show_nat (l_dump r) ++ "/N" end.
 Definition show_gp (st : pst) : string :=
   sjoin "," (map (fun k => match gparsers st (fst k) (snd k) with
                            | Some gp => show_bool (fst k) ++ show_bool (gp_memo gp) ++ show_nat (List.length (gp_cache gp)) | None => "?" end) (gp_keys st)).
@@ -368,6 +408,11 @@ def input_id(op):
     return (GRAMS.index(op["g"]) * 16 + op["k"]) * 4 + ["str", "file", "strfn"].index(op["via"])
 
 
+def model_input_id(op, j):
+    """a load that starts another load is an input of its own for the outer oracle"""
+    return 900 + j if op.get("nest") else input_id(op)
+
+
 def model_expr(case, outs, fresh, ids):
     """Coq expression evaluating the state machine on this history with the fresh-run oracle tables."""
     ctab, ltab = [], {}
@@ -380,25 +425,32 @@ def model_expr(case, outs, fresh, ids):
             kind = "COk" if "ok" in r else ("CSyntax" if r["err"]["exc"] == "TextXSyntaxError" else "CLate")
             ctab.append("(%d, {| k_kind := %s; k_dump := %d |})" % (op["cfg"], kind, ids.get(r)))
         else:
-            ci = slot_cfg[op["slot"]]
-            cfg = case["cfgs"][ci]
-            o = fo[1]
-            cl = cfg.get("classes", [])
-            leak = [o["st"]["cls"].get(cfg["g"] + "/" + k, {"store": 0})["store"] for k in cl]
-            kind = load_kind(o)
-            if "ok" in o["res"] or kind == "modelproc":
-                files = (o["st"]["slots"]["0"]["repo"] or [])
-            else:
-                files = o["opened"]
-            ent = "(%d, {| l_kind := %s; l_dump := %d; l_leak := %s; l_files := %s |})" % (
-                input_id(op), LK[kind], ids.get(o["res"]), c_nats(leak), c_nats(sorted(FILE_IDS[f] for f in files if f in FILE_IDS)))
-            ltab.setdefault(ci, {})[input_id(op)] = ent
+            def entry(ci, o, iid):
+                cfg = case["cfgs"][ci]
+                cl = cfg.get("classes", [])
+                leak = [o["st"]["cls"].get(cfg["g"] + "/" + k, {"store": 0})["store"] for k in cl]
+                kind = load_kind(o)
+                if "ok" in o["res"] or kind == "modelproc":
+                    files = ((o["st"]["slots"].get("0") or {}).get("repo") or [])
+                else:
+                    files = o["opened"]
+                plain = {k: v for k, v in o["res"].items() if k != "inner"}
+                ltab.setdefault(ci, {})[iid] = "(%d, {| l_kind := %s; l_dump := %d; l_leak := %s; l_files := %s |})" % (
+                    iid, LK[kind], ids.get(plain), c_nats(leak), c_nats(sorted(FILE_IDS[f] for f in files if f in FILE_IDS)))
+            entry(slot_cfg[op["slot"]], fo[-1], model_input_id(op, j))
+            ik = inner_key(case, slot_cfg, op)
+            if ik is not None:
+                entry(slot_cfg[op["nest"]["slot"]], fresh[ik][1], input_id(op["nest"]))
     ops = []
-    for op in case["ops"]:
+    for j, op in enumerate(case["ops"]):
         if op["op"] == "new":
             ops.append("New %d %s" % (op["slot"], c_cfg(case["cfgs"][op["cfg"]], op["cfg"])))
-        else:
-            ops.append("Load %d %d" % (op["slot"], input_id(op)))
+        elif op.get("nest") and outs[j]["res"].get("inner") is not None:
+            n = op["nest"]
+            ops.append("Nested %d %d %s %d %d" % (op["slot"], model_input_id(op, j), "PhProvider" if n["phase"] == "provider" else "PhAfter",
+                                                  n["slot"], input_id(n)))
+        else:      # no nested load happened (the hook was not reached)
+            ops.append("Load %d %d" % (op["slot"], model_input_id(op, j)))
     ss = sorted({op["slot"] for op in case["ops"]})
     cs = sorted({cls_id(c["g"], k) for c in case["cfgs"] for k in c.get("classes", [])})
     lt = core.coq_list(["(%d, %s)" % (ci, core.coq_list(list(t.values()))) for ci, t in sorted(ltab.items())])
@@ -473,8 +525,11 @@ def evaluate(chk, cases, failures, disagreements, spawn_check=0):
         for j, op, slot_cfg, key in walk_slots(c, outs):
             if key is not None:
                 need.setdefault(key, None)
+                ik = inner_key(c, slot_cfg, op)
+                if ik is not None:
+                    need.setdefault(ik, None)
     with_load = {k[1] for k in need if k[0] == "load"}
-    keys = sorted((k for k in need if k[0] == "load" or k[1] not in with_load), key=lambda k: json.dumps(k))
+    keys = sorted((k for k in need if k[0] != "new" or k[1] not in with_load), key=lambda k: json.dumps(k))
     fouts = run_jobs([fresh_job(k) for k in keys])
     fresh = dict(zip(keys, fouts))
     for k in keys:                       # the creation half of a [new, load] evaluation is the fresh creation result
@@ -538,6 +593,16 @@ def evaluate(chk, cases, failures, disagreements, spawn_check=0):
                 chk.stat("op:new:" + ("ok" if "ok" in o["res"] else "fail"))
             else:
                 chk.stat("op:load:" + load_kind(f) + ":" + op["via"])
+            ik = inner_key(c, slot_cfg, op) if op["op"] == "load" else None
+            inner = o["res"].get("inner") if ik is not None else None
+            if inner is not None:
+                chk.stat("op:nested:" + op["nest"]["phase"])
+                top = fresh[ik][1]["res"]
+                if inner != top and first_bad is None:
+                    first_bad = j
+                    failures.append({"case": {"cfgs": c["cfgs"], "ops": c["ops"][:j + 1]}, "impl": inner, "model": top, "tags": [],
+                                     "what": "operation %d: the load started from a %s of another load answers differently than the same load "
+                                             "at top level on a fresh process state" % (j, op["nest"]["phase"])})
             if o["res"] != f["res"] and first_bad is None:
                 first_bad = j
                 cfgi = op["cfg"] if op["op"] == "new" else slot_cfg[op["slot"]]
@@ -554,7 +619,14 @@ def evaluate(chk, cases, failures, disagreements, spawn_check=0):
             mf = model_state_fields(text, ss, cs)
             imf = impl_state_fields(c, outs, j, ss, cs, born)
             r = o["res"]
-            want = "N" if r.get("ok") == "noslot" else ("C" if c["ops"][j]["op"] == "new" else "L") + str(ids.get(r))
+            if r.get("ok") == "noslot":
+                want = "N"
+            elif c["ops"][j]["op"] == "new":
+                want = "C" + str(ids.get(r))
+            else:
+                want = "L" + str(ids.get({k: v for k, v in r.items() if k != "inner"}))
+                if r.get("inner") is not None:
+                    want += "/N" if r["inner"].get("ok") == "noslot" else "/L" + str(ids.get(r["inner"]))
             diffs = [k for k in imf if mf.get(k) != imf[k] and not store_only_lower(k, mf.get(k), imf[k])]
             if mf["out"] != want:
                 diffs.append("result")
@@ -573,7 +645,7 @@ def run(chk):
     cases = corpus_cases()
     global VIA_FIXED
     VIA_FIXED = not chk.thorough
-    nrand = 60 if chk.thorough else 8
+    nrand = 60 if chk.thorough else 6
     pool = make_pool(chk.rng.split("pool"), 12 if chk.thorough else 6)
     for i in range(nrand):
         r = chk.rng.split(i)
